@@ -1,6 +1,7 @@
 package main
 
 import (
+	"golang.org/x/tools/go/ssa"
 	"fmt"
 	"go/ast"
 	"go/token"
@@ -26,6 +27,7 @@ func runC10(c *Ctx) {
 	c.Rule("R10.4", 30, "the two routes expand quantifiers and decompose constructs identically")
 	c.Rule("R10.5", 3, "end-marker discipline")
 	c.Rule("R10.7", 3, "the copy made for a counted repetition is deep")
+	c.Rule("R10.8", 4, "the slice a memoising attribute hands out is not kept or extended as it is (follow sets own their storage)")
 	c.Rule("R10.6", 8, "memoised attributes (nullable/firstpos/lastpos) are evaluated only after positions have been assigned")
 
 	ap := c.Pkg("internal/regex/parser/ast")
@@ -748,6 +750,136 @@ func checkAttributePhase(c *Ctx, p *packages.Package) {
 			return true
 		})
 	})
+	checkMemoAliasing(c, p, memo)
+}
+
+// checkMemoAliasing (R10.8): what a memoising attribute returns is the slice kept in the node. Whoever stores that very slice
+// somewhere that is extended or sorted later (the follow sets) shares one backing array between several owners: an append
+// within its capacity or an in-place sort then rewrites the other owners' sets. Accepted uses: reading, ranging, passing the
+// elements on (`append(dst, s...)`), returning it from another attribute. Reported: the slice itself as the value of a map
+// update, of a field (other than the attribute's own cache) or of an element store; `append(s, ...)` is followed like s.
+func checkMemoAliasing(c *Ctx, p *packages.Package, memo map[string]bool) {
+	sp := c.SSAPk[p.PkgPath]
+	if sp == nil {
+		return
+	}
+	sites := 0
+	for _, f := range allFuncsOfPkg(sp) {
+		for _, b := range f.Blocks {
+			for _, in := range b.Instrs {
+				call, ok := in.(*ssa.Call)
+				if !ok {
+					continue
+				}
+				name := methodNameOf(call)
+				if !memo[name] {
+					continue
+				}
+				if _, isSlice := call.Type().Underlying().(*types.Slice); !isSlice {
+					continue
+				}
+				sites++
+				// follow the very slice: phis, re-slices, conversions, locals, and into helpers of the package it is handed to
+				bad, how := token.NoPos, ""
+				var follow func(fn *ssa.Function, root ssa.Value, depth int)
+				follow = func(fn *ssa.Function, root ssa.Value, depth int) {
+					seen := map[ssa.Value]bool{}
+					work := []ssa.Value{root}
+					for len(work) > 0 && bad == token.NoPos {
+						v := work[len(work)-1]
+						work = work[:len(work)-1]
+						if seen[v] || v.Referrers() == nil {
+							continue
+						}
+						seen[v] = true
+						for _, r := range *v.Referrers() {
+							switch x := r.(type) {
+							case *ssa.Phi, *ssa.Slice, *ssa.ChangeType:
+								work = append(work, x.(ssa.Value))
+							case *ssa.MapUpdate:
+								if x.Value == v {
+									bad, how = x.Pos(), "stored as a map entry"
+								}
+							case *ssa.Store:
+								if x.Val != v {
+									continue
+								}
+								switch a := x.Addr.(type) {
+								case *ssa.Alloc:
+									for _, rr := range *a.Referrers() {
+										if u, ok := rr.(*ssa.UnOp); ok && u.Op == token.MUL {
+											work = append(work, u)
+										}
+									}
+								case *ssa.FieldAddr:
+									// the attribute implementation caching its own result is the memo itself
+									if !isMemoField(fn, a) {
+										bad, how = x.Pos(), "stored into a field"
+									}
+								case *ssa.IndexAddr:
+									bad, how = x.Pos(), "stored as an element"
+								}
+							case *ssa.Call:
+								// append(s, ...) may write into s's spare capacity and its result shares s's array: the result is
+								// followed like s itself. (An attribute that builds its own cache this way is the single parent of s's
+								// node, so nobody else extends the same array; kept in a second structure it is reported.)
+								if bi, ok := x.Call.Value.(*ssa.Builtin); ok {
+									if bi.Name() == "append" && len(x.Call.Args) > 0 && x.Call.Args[0] == v {
+										work = append(work, x)
+									}
+									continue
+								}
+								if callee := x.Call.StaticCallee(); callee != nil && callee.Pkg == fn.Pkg && len(callee.Blocks) > 0 && depth < 3 {
+									for ai, a := range x.Call.Args {
+										if a == v && ai < len(callee.Params) {
+											follow(callee, callee.Params[ai], depth+1)
+										}
+									}
+								}
+							}
+						}
+					}
+				}
+				follow(f, call, 0)
+				key := fmt.Sprintf("the slice returned by %s() in %s is not kept or extended as it is", name, shortFn(f))
+				c.Check("R10.8", key, call.Pos(), bad == token.NoPos,
+					fmt.Sprintf("%s() hands out the slice cached in the node and here it is %s (%s): several position sets share one backing array, and a later append within its capacity or the in-place sort of the follow sets rewrites the others",
+						name, how, c.rel(bad)),
+					"(a*|b)[xyz] must accept bz; (ab*|c)[0-9] must accept c9")
+			}
+		}
+	}
+	c.Extra("memoised_slice_results_followed", sites)
+}
+
+func recvOfFn(f *ssa.Function) ssa.Value {
+	if f.Signature.Recv() != nil && len(f.Params) > 0 {
+		return f.Params[0]
+	}
+	return nil
+}
+
+// isMemoField: a store into a field reached from the function's own receiver (n.comp.firstPos = ...): the cache itself
+func isMemoField(f *ssa.Function, fa *ssa.FieldAddr) bool {
+	recv := recvOfFn(f)
+	if recv == nil {
+		return false
+	}
+	var x ssa.Value = fa.X
+	for i := 0; i < 4; i++ {
+		if x == recv {
+			return true
+		}
+		switch y := x.(type) {
+		case *ssa.FieldAddr:
+			x = y.X
+		case *ssa.UnOp:
+			x = y.X
+		default:
+			return false
+		}
+	}
+	return x == recv
 }
 
 // attrNames: the names the node interface gives to the three attributes, found by role, not by spelling: nullable is the
